@@ -3,7 +3,9 @@
 OPERATOR_TOKENS = ['+', '-', '*', '/', '&&', '||', '=', '!=', '>', '<', '>=', '<=', '!', '**']
 SYMBOLS = ['a', 'b', 'foo', 'x1', 'top.sub.sig', 'v<3>', 'a_b', '_x', '.d', 'if', 'let', 'define', 'print', 'step', 'first', 'geta/default',
            'signal?', 'string->int', 'set!', 'a-b', 'x:y', 'tru', 'falsey', 'truex', 't', 'f', 'INDEX', 'a^b', 'p|q', 'k=v', 'a,b', '\\esc[0]', '\\x.y',
-           'a§b', 'e+1', 'nil', 'unquote', 'quote', 'reval', 'slice', 'array', 'resolve-scope']
+           'a§b', 'e+1', 'nil', 'unquote', 'quote', 'reval', 'slice', 'array', 'resolve-scope',
+           # user symbols spelled like the interpreter's own names for its operators are ordinary symbols
+           'QUOTE', 'QUASIQUOTE', 'UNQUOTE', 'REL_EVAL', 'SLICE', 'ADD', 'Quote', 'name', 'value']
 STRINGS = ['', 'a', 'hello world', 'q"uote', 'back\\slash', 'new\nline', 'tab\there', 'mixed "\\" \n\t end', ';not a comment', '(parens)', "it's",
            '\\n literal', 'C:\\new\\table', 'µs °C', '%d %s', 'Größe:\t5 µs\n', 'ü"q\\', 'a\\', 'C:\\tmp\\', '\\', 'é\n§ end']
 
